@@ -78,13 +78,14 @@ PROPS = {
         "level_note": POOL_NOTE,
         "lean_modules": ["Vipnode.Props.C03"],
         "streams": pool_streams(60, 600) + pool_streams(150, 2000, gen="pool-minbal", prefix="minbal"),
+        "monitor": monitors.c03_cutoff,
     },
     "C04": {
         "level_text": "Over an ideal signature scheme (laws as hypotheses, satisfiable: toyScheme), the signed payload determines method, identity, nonce and parameters (payload_injective, with the bracket-freeness of every registered RPC name re-proved by `decide` on names regenerated from the method registry), so any alteration or foreign key is refused (altered_is_refused, other_key_refused), honest requests are accepted (honest_accepted) and every signed endpoint of the pool model changes state only for a request signed by the identity it names (endpoint_acts_only_if_signed). The implementation is driven with real keys and real signatures: valid requests plus single-component alterations on every signed endpoint, state dumped after each.",
         "level_note": POOL_NOTE + " Modelled rather than verified: ECDSA/Keccak/EIP-191 (ideal scheme) and the injectivity of encoding/json on the request types (ArrayEncoder hypothesis, sampled by the per-field alteration stream).",
         "lean_modules": ["Vipnode.Props.C04"],
         "streams": pool_streams(60, 600) + pool_streams(150, 1500, gen="pool-nonce", prefix="auth"),
-        "monitor": monitors.c06_refused_no_effect,
+        "monitor": monitors.c04_c06,
     },
     "C05": {
         "level_text": "Strictly increasing accepted nonces per identity and at-most-once acceptance for every history (accepted_strictly_increasing, at_most_once, replay_rejected), rejection of stale nonces, independence of identities, at most one accepted copy under every schedule of optimistic transactions (racing_duplicates) and unobservability of the badger TTL for every history (ttl_safe) are Lean theorems about the nonce table model; the model is compared with both drivers at store level and through signed RPCs, and concurrent duplicates / TTL expiry are exercised on the real drivers.",
@@ -101,7 +102,7 @@ PROPS = {
         "level_note": POOL_NOTE,
         "lean_modules": ["Vipnode.Props.C06"],
         "streams": pool_streams(80, 800) + pool_streams(150, 1500, gen="pool-nonce", prefix="refused"),
-        "monitor": monitors.c06_refused_no_effect,
+        "monitor": monitors.c04_c06,
     },
     "C07": {
         "level_text": "withdraw_exact, withdraw_refused_or_failed_no_effect, withdraw_conserves, never_twice and racing_withdrawals (any sequence of attempts — the service serialises withdrawals) are Lean theorems about Pool.Withdraw including the settlement handler's effect on the deposit; compared with the real PaymentService over a scripted settlement handler and deposit oracle on both drivers.",
@@ -140,6 +141,7 @@ PROPS = {
         "level_note": POOL_NOTE,
         "lean_modules": ["Vipnode.Props.C11"],
         "streams": store_streams(150, 1500) + pool_streams(120, 1500, gen="pool-expiry", prefix="expiry"),
+        "monitor": monitors.c11_expiry,
     },
     "C13": {
         "level_text": "migrate_current_identity, migrate_newer_refused, migrate_preserves (from every supported format the result is the current format with nodes, peers, links, balances and trials unchanged), migrate_idempotent, reopen_identity, txn_all_or_nothing and acknowledged_survive (a crash leaves the state after the acknowledged operations or after one more, given badger's atomic durable commit), trial_never_both_nor_lost (in every committed state a linked node has no trial entry and linking never changes the ledger total) are Lean theorems about the persistence model. The real driver is run on disk: histories with close/reopen after random prefixes, a child process applying operations and killed with SIGKILL, databases prepared at formats 0, 1, 2 and 3 (raw version key), readers taking Stats snapshots while trial balances are migrated.",
@@ -174,6 +176,7 @@ PROPS = {
         "level_text": "exposed_exactly (a server exposes exactly prefix+lowerFirst(method) for the receiver's exported methods, restricted to the allow-list), unknown_not_found, bad_params_not_run, runs_only_if_well_typed, too_many/too_few/wrong_type_invalid are Lean theorems about the registry and positional-argument model; production_surface re-proves by `decide`, on every run, that the names the *built pool binary* answers (probed over HTTP with every candidate name derived by reflection from the objects behind its services) are exactly the documented API. The model is compared with jsonrpc2.Server on instrumented receivers (invocation counters) and with the running binary over HTTP and WebSocket.",
         "level_note": "Theorems are about Model/Server.lean; encoding/json's type compatibility is the table `compat` (JSON null decodes into any type). Tie: differential on instrumented receivers with invocation counters; the running binary over HTTP/WebSocket with malformed parameter lists and candidate names. Trusted: reflect, encoding/json.",
         "lean_modules": ["Vipnode.Props.C16"],
+        "monitor": monitors.c16_surface,
         "streams": [
             {"name": "srv", "component": "srv", "cases": {"quick": 300, "thorough": 3000}},
             {"name": "srvbin-http", "component": "srvbin", "gen": "srvbin", "opts": {"transport": "http"}, "pool_binary": True, "cases": {"quick": 12, "thorough": 80}, "no_shrink": True},
@@ -195,6 +198,7 @@ PROPS = {
         "level_text": "advertised_id, foreign_id_refused, advertised_address, undetermined_refused and the IPv4/IPv6/DNS round trip join_split / host_port_roundtrip (SplitHostPort(JoinHostPort(h,p)) = (h,p) for every bracket-free host and colon-free port, by induction over the strings) are Lean theorems about normalizeNodeURI on structured overrides; the real normalizeNodeURI is run on generated override strings (other ids, empty user, user:password, missing/unspecified hosts, IPv6 literals and zones, ports, paths, queries, other schemes, unparsable) x source addresses, its result parsed back with ethnode.ParseNodeURI and net.SplitHostPort; registration through the real connect with a generated RemoteAddr is part of the pool streams.",
         "level_note": "Theorems are about Model/NodeURI.lean; net/url parsing is not re-implemented: the model receives what url.Parse yields for the override (hostname, port, user), observed by the harness. Trusted: net/url, net.SplitHostPort (modelled as splitHostPortL for the round-trip theorem and compared on every case).",
         "lean_modules": ["Vipnode.Props.C19"],
+        "monitor": monitors.c19_advertised,
         "streams": [{"name": "uri", "component": "uri", "cases": {"quick": 200, "thorough": 3000}}] + pool_streams(80, 800, gen="pool-peers", prefix="connect") + pool_streams(60, 600),
     },
     "C18": {
@@ -208,6 +212,7 @@ PROPS = {
         "level_text": "at_most_one_loop (after every sequence and interleaving of start/stop/wait/tick events, including racing starts), second_start_refused, running_refuses_start, failed_start_leaves_nothing, stop_ends_loop_wait_returns, failed_keepalive_ends_loop, one_keepalive_per_tick are Lean theorems about the life-cycle state machine, by an invariant preserved by every atomic step; accepted_below_expiry / expiry_refused are re-proved on every run on the --update-interval values probed on the built binary. The real agent.Agent is driven through generated life-cycle histories (scripted pool failing at connect / first update / a later keep-alive, two concurrent Starts, keep-alives counted over a window of intervals).",
         "level_note": "Theorems are about Model/Agent.lean `lifeStep` (atomic steps: the mutex-protected check-and-set of `started`, loop start, tick, stop, wait). Partial: wall-clock cadence is runtime behaviour - the model says one keep-alive per tick, the harness checks that the number of keep-alives in a window of 10 intervals is that of one loop (two loops give twice as many). The interval clause is a finite probe of the binary (grid around the 5 s and 120 s bounds), re-proved by `decide`.",
         "lean_modules": ["Vipnode.Props.C20"],
+        "monitor": monitors.c20_life,
         "streams": [{"name": "agent-life", "component": "agentlife", "cases": {"quick": 16, "thorough": 150}, "no_shrink": True, "race": True}],
         "race": True,
     },
@@ -217,6 +222,7 @@ PROPS = {
         "technique": "Lean 4 proof over reference model + differential correspondence on both drivers",
         "lean_modules": ["Vipnode.Props.C12"],
         "streams": store_streams(400, 4000),
+        "cross_driver": True,
         "assumptions": ["badger transaction atomicity", "clock readings observed by the harness (LastSeen read back; bracketed reads away from boundaries)"],
     },
 }
